@@ -390,9 +390,14 @@ def make_run(owner: str):
 
 
 def run_model(sim: DriverSim, model) -> None:
-    tr = sim.tr
     model.prepare_simulation()
     sim.start(model)
+    run_model_loop(sim, model)
+
+
+def run_model_loop(sim: DriverSim, model) -> None:
+    """The time loop after prepare_simulation() and sim.start() (shared with the C38 model workload)."""
+    tr = sim.tr
     params = dict(sim.params)
     params["prepare_simulation"] = False
     sim.raised = False
